@@ -1,5 +1,7 @@
 package main
 
+import "strings"
+
 // Hand-picked cases (the same cases are committed under corpus/C20 as replay files; the pre-fix
 // failing inputs of F-20a/b/c are among them).
 
@@ -44,6 +46,14 @@ func handPickedNamed() map[string]Case {
 	clash := fixedSchema()
 	clash.Types[0].Values = []string{"RED", "red", "A_B", "AB", "_"}
 	sn := selNameClash()
+	m := scopeCases()
+	for k, c := range handPickedBase(mk, q, clash, sn) {
+		m[k] = c
+	}
+	return m
+}
+
+func handPickedBase(mk func(defs ...Def) Case, q func(sels ...Sel) Def, clash SchemaSpec, sn Case) map[string]Case {
 	return map[string]Case{
 		"F-20f-enum-constant-collision": {Schema: clash, Docs: []Doc{{Defs: []Def{q(f("a", f("c")))}}}, Seed: 7, Worlds: 4},
 		"F-20g-sel-type-name-collision": sn,
@@ -91,9 +101,135 @@ func handPicked() []Case {
 	return out
 }
 
-// findingCases are the committed replays of the open findings (none at present).
+// findingCases are the committed replays of the open findings.
 func findingCases() map[string]Case {
-	return map[string]Case{}
+	return map[string]Case{
+		"F-20i-enum-identifier-collides-in-package-scope": scopeCase([]TypeSpec{
+			{Kind: "enum", Name: "A", Values: []string{"B_C"}}, {Kind: "enum", Name: "AB", Values: []string{"C"}}},
+			[]FieldSpec{{Name: "p", Type: named("A")}, {Name: "q", Type: named("AB")}}, "Q1", f("p"), f("q")),
+		"F-20j-typename-field-name-collision": Case{Schema: fixedSchema(), Seed: 7, Worlds: 4, Docs: []Doc{{Defs: []Def{
+			{Kind: "query", Name: "Q1", Sels: []Sel{f("a", f("__typename"), fa("typename__", "id"))}}}}}},
+		"F-20k-enum-type-shadowed-in-generated-method": scopeEnumNamed("b"),
+	}
+}
+
+// scopeCase: a schema of the given enums (+ object Alpha{x}) and a Query with the given fields.
+func scopeCase(enums []TypeSpec, qfields []FieldSpec, opName string, sels ...Sel) Case {
+	types := append([]TypeSpec{}, enums...)
+	types = append(types, TypeSpec{Kind: "object", Name: "Query", Fields: qfields})
+	return Case{Schema: SchemaSpec{Query: "Query", Types: types}, Seed: 7, Worlds: 4,
+		Docs: []Doc{{Defs: []Def{{Kind: "query", Name: opName, Sels: sels}}}}}
+}
+
+// scopeEnumNamed: an enum with the given name used inside a selection set that carries a fragment (so
+// that a `sel…` type with an UnmarshalJSON method is generated around it).
+func scopeEnumNamed(name string) Case {
+	return Case{Schema: SchemaSpec{Query: "Query", Types: []TypeSpec{
+		{Kind: "enum", Name: name, Values: []string{"RED", "dark_blue"}},
+		{Kind: "object", Name: "Alpha", Fields: []FieldSpec{{Name: "c", Type: named(name)}, {Name: "x", Type: named("Int")}}},
+		{Kind: "object", Name: "Query", Fields: []FieldSpec{{Name: "a", Type: named("Alpha")}}},
+	}}, Seed: 7, Worlds: 4, Docs: []Doc{{Defs: []Def{{Kind: "query", Name: "Q1", Sels: []Sel{f("a", f("c"), on("Alpha", f("x")))}}}}}}
+}
+
+// wrapperChains: every chain of list / non-null wrappers up to list depth 3 (2+4+8+16 = 30 types) over Int,
+// an enum and an object, selected in one operation; the worlds put null at every nullable level.
+func wrapperChains() Case {
+	var chains []TypeRef
+	var build func(depth int, inner func(TypeRef) TypeRef)
+	bases := []string{"Int", "Color", "Alpha"}
+	for _, base := range bases {
+		level := []TypeRef{named(base), nonNull(named(base))}
+		chains = append(chains, level...)
+		for d := 1; d <= 3; d++ {
+			var next []TypeRef
+			for _, t := range level {
+				next = append(next, listOf(t), nonNull(listOf(t)))
+			}
+			chains = append(chains, next...)
+			level = next
+		}
+	}
+	_ = build
+	s := SchemaSpec{Query: "Query", Types: []TypeSpec{
+		{Kind: "enum", Name: "Color", Values: []string{"RED", "dark_blue"}},
+		{Kind: "object", Name: "Alpha", Fields: []FieldSpec{{Name: "x", Type: named("Int")}, {Name: "id", Type: nonNull(named("ID"))}}},
+	}}
+	q := TypeSpec{Kind: "object", Name: "Query"}
+	var sels []Sel
+	for i, t := range chains {
+		name := "w" + string(rune('a'+i/26)) + string(rune('a'+i%26))
+		q.Fields = append(q.Fields, FieldSpec{Name: name, Type: t})
+		if t.Base() == "Alpha" {
+			sels = append(sels, f(name, f("x"), f("id")))
+		} else {
+			sels = append(sels, f(name))
+		}
+	}
+	s.Types = append(s.Types, q)
+	return Case{Schema: s, Seed: 21, Worlds: 4, Docs: []Doc{{Defs: []Def{{Kind: "query", Name: "Q1", Sels: sels}}}}}
+}
+
+// scopeCases: hand-picked cases around the Go scopes of the generated identifiers (session 3).
+func scopeCases() map[string]Case {
+	long := strings.Repeat("VeryLongName_", 40) + "z9"
+	longSchema := SchemaSpec{Query: "Query", Types: []TypeSpec{
+		{Kind: "enum", Name: "E" + long, Values: []string{"V_" + long, "v_" + strings.ToLower(long)}},
+		{Kind: "iface", Name: "I" + long, Fields: []FieldSpec{{Name: "f" + long, Type: named("E" + long)}}},
+		{Kind: "object", Name: "O" + long, Ifaces: []string{"I" + long}, Fields: []FieldSpec{{Name: "f" + long, Type: named("E" + long)},
+			{Name: "g" + long, Type: nonNull(listOf(listOf(named("Int"))))}}},
+		{Kind: "object", Name: "Query", Fields: []FieldSpec{{Name: "r" + long, Type: named("I" + long)}}},
+	}}
+	underscore := SchemaSpec{Query: "Query", Types: []TypeSpec{
+		{Kind: "enum", Name: "_e_1", Values: []string{"_", "__1", "_1_", "A__1", "a_1", "A1", "_9x"}},
+		{Kind: "object", Name: "_Thing", Fields: []FieldSpec{{Name: "x", Type: named("Int")}, {Name: "_e", Type: named("_e_1")}, {Name: "_9", Type: listOf(named("_e_1"))}}},
+		{Kind: "object", Name: "_1Other", Fields: []FieldSpec{{Name: "x", Type: named("Int")}}},
+		{Kind: "union", Name: "_U", Members: []string{"_Thing", "_1Other"}},
+		{Kind: "object", Name: "Query", Fields: []FieldSpec{{Name: "u", Type: named("_U")}, {Name: "_t", Type: named("_Thing")}}},
+	}}
+	boundary := SchemaSpec{Query: "Query", Types: []TypeSpec{
+		{Kind: "iface", Name: "Node", Fields: []FieldSpec{{Name: "x", Type: named("Int")}}},
+		{Kind: "object", Name: "Alpha", Ifaces: []string{"Node"}, Fields: []FieldSpec{{Name: "x", Type: named("Int")}, {Name: "c", Type: named("String")}}},
+		{Kind: "object", Name: "Beta", Ifaces: []string{"Node"}, Fields: []FieldSpec{{Name: "x", Type: named("Int")}, {Name: "y", Type: nonNull(named("Float"))}}},
+		{Kind: "object", Name: "Query", Fields: []FieldSpec{{Name: "n", Type: named("Node")}, {Name: "l", Type: listOf(named("Node"))}}},
+	}}
+	return map[string]Case{
+		"scope-F-20i-constant-vs-enum-type": scopeCase([]TypeSpec{
+			{Kind: "enum", Name: "Color", Values: []string{"RED"}}, {Kind: "enum", Name: "ColorRed", Values: []string{"X"}}},
+			[]FieldSpec{{Name: "p", Type: named("Color")}, {Name: "q", Type: named("ColorRed")}}, "Q1", f("p"), f("q")),
+		"scope-F-20i-constant-vs-operation-type": scopeCase([]TypeSpec{{Kind: "enum", Name: "Q1", Values: []string{"DATA"}}},
+			[]FieldSpec{{Name: "p", Type: named("Q1")}}, "Q1", f("p")),
+		"scope-F-20i-constant-shadows-float64": scopeCase([]TypeSpec{{Kind: "enum", Name: "float", Values: []string{"_64"}}},
+			[]FieldSpec{{Name: "p", Type: named("float")}, {Name: "q", Type: named("Float")}}, "Q1", f("p"), f("q")),
+		"wrapper-chains-every-null-mix":   wrapperChains(),
+		"repeated-type-conditions-every-order": Case{Schema: fixedSchema(), Seed: 7, Worlds: 4, Docs: []Doc{{Defs: []Def{{Kind: "query", Name: "Q1", Sels: []Sel{
+			f("u", on("Alpha", f("x")), on("Alpha", f("c")), on("Beta", f("y")), f("__typename"), on("Thing", f("__typename")), on("Beta", f("grid")),
+				Sel{Kind: "i", Sels: []Sel{f("__typename"), on("Alpha", fa("x3", "x")), on("Beta", fa("y3", "y"))}}, on("Alpha", fa("x4", "x"))),
+			f("i", f("__typename"), on("Beta", f("y")), on("Alpha", f("c")), on("Beta", f("cube")), on("Alpha", f("next", f("c"))),
+				Sel{Kind: "i", Sels: []Sel{f("__typename"), on("Beta", fa("g2", "grid"))}}, Sel{Kind: "i", Sels: []Sel{f("__typename"), on("Alpha", fa("c2", "c"))}}),
+		}}}}}},
+		"scope-F-20k-enum-named-s":        scopeEnumNamed("s"),
+		"scope-enum-named-base":           scopeEnumNamed("base"),
+		"scope-enum-named-err":            scopeEnumNamed("err"),
+		"scope-F-20i-enum-named-like-sel-type": scopeEnumNamed("selAlpha_0"),
+		"scope-F-20i-enum-named-like-operation-type": scopeCase([]TypeSpec{{Kind: "enum", Name: "Q1Data", Values: []string{"X"}}},
+			[]FieldSpec{{Name: "p", Type: named("Q1Data")}}, "Q1", f("p")),
+		"scope-uppercase-typename-alias":  Case{Schema: fixedSchema(), Seed: 7, Worlds: 4, Docs: []Doc{{Defs: []Def{{Kind: "query", Name: "Q1", Sels: []Sel{f("u", f("__typename"), fa("TYPENAME__", "__typename"), on("Alpha", f("x")))}}}}}},
+		"scope-very-long-names": Case{Schema: longSchema, Seed: 7, Worlds: 4, Docs: []Doc{{Defs: []Def{
+			{Kind: "query", Name: "Q" + long, Sels: []Sel{f("r"+long, f("__typename"), f("f"+long), on("O"+long, f("g"+long)), spread("F"+long))}},
+			{Kind: "frag", Name: "F" + long, Cond: "O" + long, Sels: []Sel{fa("a"+long, "f"+long)}}}}}},
+		"scope-underscore-and-digit-names": Case{Schema: underscore, Seed: 7, Worlds: 4, Docs: []Doc{{Defs: []Def{
+			{Kind: "query", Name: "Q_1", Sels: []Sel{f("u", f("__typename"), on("_Thing", f("x"), fa("e", "_e"), fa("n9", "_9")), on("_1Other", f("x")), spread("_F")),
+				fa("t", "_t", fa("e_1", "_e"), on("_Thing", f("x")))}},
+			{Kind: "frag", Name: "_F", Cond: "_Thing", Sels: []Sel{fa("fx", "x")}}}}}},
+		// keys differing only in case across a fragment boundary: with disjoint object conditions they never
+		// meet in one response object (inside the theorems; the harness's envelope checker is conservative and
+		// calls it outside); with an interface and an implementing object they do meet — outside the envelope:
+		// encoding/json delivers both `x` and `X` to the field X of each holder (model and real code agree)
+		"case-boundary-disjoint-conditions": Case{Schema: boundary, Seed: 7, Worlds: 4, Docs: []Doc{{Defs: []Def{
+			{Kind: "query", Name: "Q1", Sels: []Sel{f("l", f("__typename"), on("Alpha", f("x")), on("Beta", fa("X", "y")))}}}}}},
+		"case-boundary-overlapping-conditions": Case{Schema: boundary, Seed: 7, Worlds: 4, Docs: []Doc{{Defs: []Def{
+			{Kind: "query", Name: "Q1", Sels: []Sel{f("n", f("__typename"), on("Node", f("x")), on("Alpha", fa("X", "c")))}}}}}},
+	}
 }
 
 // selNameClash: the generated type names are "sel" + type name + a run-wide counter. With object types
